@@ -805,3 +805,86 @@ func TestC07ArgumentsOnce(t *testing.T) {
 	}
 	run.Exhaustive()
 }
+
+// TestC07OperandOrder: the operands of a strict binary operator are evaluated left to right,
+// so an assignment in the left operand is seen by a read in the right one, and the right one binds last.
+func TestC07OperandOrder(t *testing.T) {
+	run := h.Begin("C07", "operand-order", "bounded-exhaustive: 16 strict binary operators (| ^ & == != === !== < > <= >= + - * / %) x ordered pairs (L, R) of 8 literals (1, 2, 5, 0.5, 'x', 'y', true, null) x 3 shapes: '[($a = L) OP ($a = R), $a]', '$a = L, [($a = R) OP $a, $a]', '$a = L, [$a OP ($a = R), $a]'; oracle: the same list written with the literals in place of the locals ('[L OP R, R]', '[R OP R, R]', '[L OP R, R]') evaluated on a new runner; a pair the operator rejects is skipped and counted; non-trivial: the plain formula evaluated")
+	defer run.End(t)
+	ops := []string{"|", "^", "&", "==", "!=", "===", "!==", "<", ">", "<=", ">=", "+", "-", "*", "/", "%"}
+	lits := []string{"1", "2", "5", "0.5", "'x'", "'y'", "true", "null"}
+	var idx int64
+	for _, op := range ops {
+		for _, l := range lits {
+			for _, r := range lits {
+				for shape := 0; shape < 3; shape++ {
+					idx++
+					if !h.Mine(idx) || run.NViolations() >= 3 {
+						continue
+					}
+					var c operandCase
+					switch shape {
+					case 0:
+						c = operandCase{Text: "[($a = " + l + ") " + op + " ($a = " + r + "), $a]", Plain: "[" + l + " " + op + " " + r + ", " + r + "]"}
+					case 1:
+						c = operandCase{Text: "$a = " + l + ", [($a = " + r + ") " + op + " $a, $a]", Plain: "[" + r + " " + op + " " + r + ", " + r + "]"}
+					default:
+						c = operandCase{Text: "$a = " + l + ", [$a " + op + " ($a = " + r + "), $a]", Plain: "[" + l + " " + op + " " + r + ", " + r + "]"}
+					}
+					msg, skipped := checkOperandOrder(c)
+					if skipped {
+						run.Count(false, "operator rejects the pair (skipped)")
+						continue
+					}
+					run.Count(true, "evaluated")
+					if idx%131 == 0 {
+						run.Sample("evaluated", c.Text)
+					}
+					if msg != "" {
+						run.Fail("c07-order", c, msg)
+					}
+				}
+			}
+		}
+	}
+	run.Exhaustive()
+}
+
+type operandCase struct {
+	Text  string `json:"text"`
+	Plain string `json:"plain"`
+}
+
+func checkOperandOrder(c operandCase) (string, bool) {
+	pp := obs.Parse([]byte(c.Plain))
+	p := obs.Parse([]byte(c.Text))
+	if !pp.OK() || !p.OK() {
+		return "HARNESS: " + c.Text, false
+	}
+	want := obs.Eval(formula.NewRunner(), context.Background(), pp.Src.Expression)
+	if want.Panic != nil || want.Err != nil {
+		return "", true
+	}
+	got := obs.Eval(formula.NewRunner(), context.Background(), p.Src.Expression)
+	if got.Panic != nil {
+		return "", true // C03's concern
+	}
+	if got.Err != nil {
+		return fmt.Sprintf("%s fails (%v) although %s evaluates: operands are evaluated left to right, each assignment binding before the next operand is read", c.Text, got.Err, c.Plain), false
+	}
+	if g, w := obs.Show(got.Val), obs.Show(want.Val); g != w {
+		return fmt.Sprintf("%s = %s, want %s (the value of %s): operands are evaluated left to right, each assignment binding before the next operand is read", c.Text, g, w, c.Plain), false
+	}
+	return "", false
+}
+
+func init() {
+	h.RegisterReplay("c07-order", func(raw json.RawMessage) string {
+		c, err := h.Decode[operandCase](raw)
+		if err != nil {
+			return "bad replay: " + err.Error()
+		}
+		m, _ := checkOperandOrder(c)
+		return m
+	})
+}
